@@ -136,7 +136,8 @@ func runC14(c *an.Ctx) {
 		}
 	}
 	c.Expect("C14.shift", "uses of the implicit-first-argument predicate", nPred, 5)
-	// Get / IsSet: under the predicate index 0 → piped value, otherwise index--
+	// Get / IsSet: under the predicate index 0 → piped value, otherwise index-- (decided on the paths of the
+	// function with new helpers spliced in: the form of the code does not matter)
 	for _, name := range []string{"(*Arguments).Get", "(*Arguments).IsSet"} {
 		f := p.Fn(name)
 		if f == nil {
@@ -144,41 +145,118 @@ func runC14(c *an.Ctx) {
 		}
 		info := f.Info()
 		idx := an.Param(f, 0)
-		ok, why := false, "no branch for the implicit first argument"
-		an.InspectOwn(f, func(n ast.Node) bool {
-			is, isIf := n.(*ast.IfStmt)
-			if !isIf {
+		binds := p.HelperBinds(f)
+		// role: the index variable — the first parameter, or a helper parameter bound to it
+		var isIdx func(o types.Object, depth int) bool
+		isIdx = func(o types.Object, depth int) bool {
+			if o == nil || depth > 3 {
+				return false
+			}
+			if o == types.Object(idx) {
 				return true
 			}
-			if _, mentions := shiftPredicate(p, f, is.Cond); !mentions {
-				return true
+			v, ok := o.(*types.Var)
+			if !ok || len(binds[v]) == 0 {
+				return false
 			}
-			zero, dec := false, false
-			for _, st := range is.Body.List {
-				switch s := st.(type) {
-				case *ast.IfStmt:
-					if strings.ReplaceAll(an.Str(s.Cond), " ", "") == idx.Name()+"==0" && len(s.Body.List) == 1 {
-						if ret, isRet := s.Body.List[0].(*ast.ReturnStmt); isRet && len(ret.Results) == 1 && strings.Contains(an.Str(ret.Results[0]), "pipedVal") {
-							zero = true
-						}
-					}
-				case *ast.IncDecStmt:
-					if id, isId := s.X.(*ast.Ident); isId && an.ObjOf(info, id) == types.Object(idx) && s.Tok == token.DEC {
-						dec = true
-					}
+			for _, b := range binds[v] {
+				id, ok := an.Unparen(b.Arg).(*ast.Ident)
+				if !ok || !isIdx(an.ObjOf(info, id), depth+1) {
+					return false
 				}
 			}
-			switch {
-			case !zero:
-				why = "index 0 does not yield the piped value under the implicit-first-argument predicate"
-			case !dec:
-				why = "indexes above 0 are not shifted by one under the implicit-first-argument predicate"
-			default:
-				ok = true
-			}
 			return true
-		})
-		c.Check(ok, "C14.shift", name+"/mapping", f.Pos(), "index 0 is the piped value and index i maps to Exprs[i-1] under the predicate", name+": "+why)
+		}
+		identIdx := func(e ast.Expr) bool {
+			id, ok := an.Unparen(e).(*ast.Ident)
+			return ok && isIdx(an.ObjOf(info, id), 0)
+		}
+		hooks := an.Hooks{
+			Branch: func(x *an.Explorer, cond ast.Expr, val bool, st *an.State) {
+				if pred, mentions := shiftPredicate(p, f, cond); mentions && pred == canon {
+					if val {
+						st.Set("P", "T")
+					} else {
+						st.Set("P", "F")
+					}
+				}
+				if b, ok := an.Unparen(cond).(*ast.BinaryExpr); ok && b.Op == token.EQL && an.Str(b.Y) == "0" && identIdx(b.X) && val {
+					st.Set("zero", "1")
+				}
+			},
+			Stmt: func(x *an.Explorer, n ast.Node, st *an.State) {
+				if inc, ok := n.(*ast.IncDecStmt); ok && inc.Tok == token.DEC && identIdx(inc.X) {
+					st.Add("dec", 1)
+				}
+				// reads of Exprs[index]
+				ast.Inspect(n, func(m ast.Node) bool {
+					if _, isLit := m.(*ast.FuncLit); isLit {
+						return false
+					}
+					if ix, ok := m.(*ast.IndexExpr); ok && p.FieldKey(info, an.Unparen(ix.X)) == "CallArgs.Exprs" {
+						if identIdx(ix.Index) {
+							st.Set("read", fmt.Sprintf("dec%d", st.Int("dec")))
+						} else {
+							st.Set("read", "other:"+an.Str(ix.Index))
+						}
+					}
+					return true
+				})
+			},
+		}
+		x := p.NewExplorer(f, hooks)
+		x.Run(nil)
+		c.States += x.Visited
+		c.FnsAnalysed[f.Name] = true
+		ok, why := true, ""
+		seenZero, seenShift, seenPlain := false, false, false
+		var trail []string
+		for _, ex := range x.Exits {
+			if ex.Kind != an.ExitReturn || ex.Ret == nil || len(ex.Ret.Results) != 1 {
+				continue
+			}
+			res := ex.Ret.Results[0]
+			kind := "zero"
+			ast.Inspect(res, func(m ast.Node) bool {
+				switch v := m.(type) {
+				case *ast.SelectorExpr:
+					if p.FieldKey(info, v) == "Arguments.pipedVal" {
+						kind = "piped"
+					}
+				case *ast.CallExpr:
+					if an.IsCallTo(info, v, "(*jet.Runtime).evalPrimaryExpressionGroup", "(*jet.Runtime).isSet") && kind != "piped" {
+						kind = "expr"
+					}
+				}
+				return true
+			})
+			P, zero, read := ex.State.Get("P"), ex.State.Get("zero"), ex.State.Get("read")
+			switch {
+			case P == "T" && zero != "":
+				seenZero = true
+				if kind != "piped" {
+					ok, why, trail = false, "index 0 does not yield the piped value under the implicit-first-argument predicate", ex.Trail
+				}
+			case kind == "expr" && P == "T":
+				seenShift = true
+				if read != "dec1" {
+					ok, why, trail = false, "indexes above 0 are not shifted by exactly one under the implicit-first-argument predicate (the expression read is Exprs["+read+"])", ex.Trail
+				}
+			case kind == "expr" && P == "F":
+				seenPlain = true
+				if read != "dec0" {
+					ok, why, trail = false, "without an implicit first argument index i must read Exprs[i] (read: "+read+")", ex.Trail
+				}
+			}
+		}
+		if ok && !(seenZero && seenShift && seenPlain) {
+			ok, why = false, fmt.Sprintf("no branch for the implicit first argument (paths seen: index 0 under the predicate %v, shifted read %v, plain read %v)", seenZero, seenShift, seenPlain)
+		}
+		if ok {
+			c.OK("C14.shift", name+"/mapping", f.Pos(), "index 0 is the piped value and index i maps to Exprs[i-1] under the predicate")
+		} else {
+			c.Bad("C14.shift", name+"/mapping", f.Pos(), trail, "%s: %s", name, why)
+		}
 	}
 	if f := p.Fn("(*Arguments).NumOfArguments"); f != nil {
 		ok := false
